@@ -19,7 +19,8 @@ TRACE_CFG = 'ResurrectAbsTrace.cfg'
 TRACE_CHUNK = 600
 CASE_TIMEOUT = 400
 ASSUMPTIONS = [
-  'an unreachable endpoint refuses connects (or, for ThriftMux, accepts and never answers pings) and resets established connections',
+  'an unreachable endpoint refuses connects (or, for ThriftMux, accepts and never answers pings) and resets established connections, '
+  'or (blackhole) drops everything sent on established connections and refuses new ones',
   'C09.failFast is asserted only for requests issued while the resurrector reports Closed and no connect attempt is in progress',
   'back-off gaps are measured from the end of one attempt to the start of the next; domain initial > 1 s, exponent > 1',
   'C09.recovers is asserted by the driver only after the endpoint has been reachable with steady traffic for max_wait_interval + slack',
@@ -46,7 +47,7 @@ def _gen(rng, i):
   level = 'full' if i % 5 == 4 else 'chain'
   initial, mx, exp = CONFIGS[(i // 2) % len(CONFIGS)]
   s = {'kind': kind, 'level': level, 'initial': initial, 'max': mx, 'exp': exp, 'rseed': rng.randint(0, 10 ** 6),
-       'down_mode': rng.choice(['refuse', 'refuse', 'refuse20', 'silent' if kind == 'mux' else 'refuse']),
+       'down_mode': rng.choice(['refuse', 'refuse', 'refuse20', 'silent' if kind == 'mux' else 'refuse', 'blackhole']),
        'start_up': rng.random() < 0.8, 'steps': []}
   st = s['steps']
   up = s['start_up']
@@ -204,8 +205,9 @@ def run_case(script):
       conn.connect_plan = ('refuse', 0.0)
   net.on_connect_start = on_connect_start
 
-  # per-connection ping silence for mux (the peer object is shared)
-  if kind == 'mux':
+  # per-connection silence (the peer object is shared): mux 'silent' = accepts and never answers;
+  # 'blackhole' = established connections go silent (frames are dropped) and new connects are refused
+  if kind == 'mux' or down_mode == 'blackhole':
     orig_on_frame = peer.on_frame
 
     def on_frame(conn, frame):
@@ -386,6 +388,13 @@ def run_case(script):
           for c in net.conns:
             if c.waiting == 'connect':
               c.resolve_connect(True)
+          for c in net.conns:
+            if down_mode == 'blackhole':
+              c.user.pop('silent', None)
+        elif down_mode == 'blackhole':
+          for c in net.conns:
+            if c.connected and not c.closed:
+              c.user['silent'] = True
         else:
           for c in net.conns:
             if c.connected and not c.closed:
